@@ -7,15 +7,19 @@ Three facts, regenerated from the source under test on every run:
    knows plus representatives of "anything else" (DEFER, UNKNOWN, an out-of-vocabulary string).  For every row:
    success, action, blocked, and whether an approval token is attached; `tokensWellFormed` says that every
    attached token carried sha256(prompt)[:16] of the prompt passed in and the assessor's name.
-2. `literals` / `shapeOk`: the syntactic check that inside the class `action_type` is only ever *compared*
-   (==, !=, in, not in) against string literals — so two verdict strings that are not among the literals cannot
-   be told apart by the code and the representatives of (1) cover every string.
+2. `literals` / `shapeOk`: obtained by EVALUATION, not by reading syntax: every verdict handed to the real code in
+   (1), (3) and in complete `run`s is a tracer string (`TStr`) that records what is done with it.  `literals` = the
+   strings a verdict was compared against (==, !=, membership in a tuple/list — wherever the tuple is written: inline,
+   class constant, module constant); `shapeOk` = nothing else was done with a verdict (no str method, ordering,
+   indexing, length, hashing / dict dispatch, concatenation, verdict-vs-verdict comparison; formatting for log
+   messages is allowed).  So two verdict strings that are not among the literals cannot be told apart by the code
+   and the representatives of (1) — which include `permit`, `PERMIT ` and the empty string — cover every string.
 3. `runClass`: how `run` feeds the circuit breaker, obtained by evaluating the real `run` with the gate replaced
    (instance attribute) by a function returning a result with given success/blocked flags, for every pair of
    verdict classes: success / neither / failure, read off the breaker's counters.
 
 Fail closed: anything unexpected (import error, unknown action string, counters moving in an unforeseen way,
-`action_type` used in another way) yields `ok := false` and empty tables, which makes `c07_gate_table_*` /
+a verdict used in another way) yields `ok := false` and empty tables, which makes `c07_gate_table_*` /
 `c08_run_classification_table` fail to check.
 """
 from __future__ import annotations
@@ -33,7 +37,7 @@ GATE_LEAN = {"and": ".and", "or": ".or", "majority": ".majority", "unanimous": "
              "executor_priority": ".execPrio", "assessor_priority": ".assessPrio"}
 ACTION_LEAN = {"SUCCESS": ".success", "BLOCKED": ".blocked", "FAILURE": ".failure", "SKIPPED": ".skipped",
                "ERROR": ".error", "CIRCUIT_OPEN": ".circuitOpen"}
-REPS = ["EXECUTE", "PERMIT", "BLOCK", "FAILURE", "DEFER", "UNKNOWN", "out-of-vocabulary"]
+REPS = ["EXECUTE", "PERMIT", "BLOCK", "FAILURE", "DEFER", "UNKNOWN", "out-of-vocabulary", "permit", "PERMIT ", ""]
 CLASS_REPS = ["EXECUTE", "PERMIT", "BLOCK", "FAILURE", "DEFER"]
 
 
@@ -80,8 +84,8 @@ def gate_rows(L, T):
             for y in REPS:
                 loop = _mk_loop(L, g)
                 prompt = f"E2 probe {g.value} {z} {y}"
-                zo = T.ActionProtein(z, "z payload", 0.5)
-                yo = T.ActionProtein(y, "y payload", 0.5)
+                zo = T.ActionProtein(TStr(z), "z payload", 0.5)
+                yo = T.ActionProtein(TStr(y), "y payload", 0.5)
                 with contextlib.redirect_stdout(io.StringIO()):
                     r = loop._apply_gate_logic(zo, yo, prompt)
                 if r.action not in ACTION_LEAN or r.action == "CIRCUIT_OPEN":
@@ -96,50 +100,61 @@ def gate_rows(L, T):
     return rows, tokens_ok
 
 
-def literal_check(src: str):
-    """every use of `.action_type` inside CoherentFeedForwardLoop is an operand of a comparison against literals"""
-    tree = ast.parse(src)
-    cls = next((n for n in ast.walk(tree) if isinstance(n, ast.ClassDef) and n.name == "CoherentFeedForwardLoop"), None)
-    if cls is None:
-        raise Unrecognised("class CoherentFeedForwardLoop not found")
-    parents = {}
-    for n in ast.walk(cls):
-        for c in ast.iter_child_nodes(n):
-            parents[c] = n
-    lits, ok = set(), True
+class TStr(str):
+    """A verdict string that reports what the code under test does with it.  Comparisons (==, !=, membership in a
+    tuple/list, which compares element by element) are recorded with the value compared against; anything that looks
+    INTO the string (str methods, ordering, indexing, length, hashing - i.e. dict/set dispatch -, concatenation) or
+    compares two verdicts with each other is recorded as a use the verdict classes cannot account for.  Formatting
+    (str / repr / format, as in log messages) is allowed."""
+    lits: set = set()
+    other: set = set()
 
-    def strs(node):
-        if isinstance(node, ast.Constant) and isinstance(node.value, str):
-            return [node.value]
-        if isinstance(node, (ast.Tuple, ast.List, ast.Set)) and all(
-                isinstance(e, ast.Constant) and isinstance(e.value, str) for e in node.elts):
-            return [e.value for e in node.elts]
-        return None
+    def __eq__(self, o):
+        if isinstance(o, TStr):
+            TStr.other.add("verdicts compared with each other")
+        elif isinstance(o, str):
+            TStr.lits.add(str.__str__(o))
+        return str.__eq__(self, o)
 
-    uses = 0
-    for n in ast.walk(cls):
-        if isinstance(n, ast.Attribute) and n.attr == "action_type":
-            uses += 1
-            par = parents.get(n)
-            # allowed shape 1:  X.action_type <op> literal(s)   /   literal <op> X.action_type
-            if isinstance(par, ast.Compare) and len(par.ops) == 1 and isinstance(par.ops[0], (ast.Eq, ast.NotEq, ast.In, ast.NotIn)):
-                other = par.comparators[0] if par.left is n else par.left
-                got = strs(other)
-                if got is not None:
-                    lits.update(got)
-                    continue
-            # allowed shape 2:  literal in (X.action_type, Y.action_type)
-            if isinstance(par, (ast.Tuple, ast.List, ast.Set)):
-                gp = parents.get(par)
-                if (isinstance(gp, ast.Compare) and len(gp.ops) == 1 and isinstance(gp.ops[0], (ast.In, ast.NotIn))
-                        and gp.comparators[0] is par and strs(gp.left) is not None
-                        and all(isinstance(e, ast.Attribute) and e.attr == "action_type" for e in par.elts)):
-                    lits.update(strs(gp.left))
-                    continue
-            ok = False
-    if uses == 0:
-        ok = False
-    return sorted(lits), ok
+    def __ne__(self, o):
+        if isinstance(o, TStr):
+            TStr.other.add("verdicts compared with each other")
+        elif isinstance(o, str):
+            TStr.lits.add(str.__str__(o))
+        return str.__ne__(self, o)
+
+    def __hash__(self):
+        TStr.other.add("hashed (dict / set dispatch)")
+        return str.__hash__(self)
+
+    def __getattribute__(self, name):
+        if not name.startswith("__") and hasattr(str, name):
+            TStr.other.add(f"str.{name}")
+        return str.__getattribute__(self, name)
+
+
+def _spy(op):
+    def f(self, *a):
+        TStr.other.add(op)
+        return getattr(str, op)(self, *a)
+    return f
+
+
+for _op in ("__lt__", "__le__", "__gt__", "__ge__", "__len__", "__getitem__", "__iter__", "__contains__", "__add__",
+            "__mod__", "__mul__", "__rmod__", "__rmul__"):
+    setattr(TStr, _op, _spy(_op))
+
+
+def traced_runs(L, T):
+    """the whole `run` (cache and breaker off) on tracer verdicts, every gate logic x verdict x verdict"""
+    for g in L.GateLogic:
+        for z in REPS:
+            for y in REPS:
+                loop = _mk_loop(L, g, enable_circuit_breaker=False, enable_cache=False)
+                loop.executor.next = T.ActionProtein(TStr(z), "p", 0.5)
+                loop.assessor.next = T.ActionProtein(TStr(y), "p", 0.5)
+                with contextlib.redirect_stdout(io.StringIO()):
+                    loop.run(f"E2 traced run {g.value} {z} {y}")
 
 
 def run_classification(L, T):
@@ -150,8 +165,8 @@ def run_classification(L, T):
                 for y in CLASS_REPS:
                     loop = _mk_loop(L, L.GateLogic.AND, enable_circuit_breaker=True, failure_threshold=10 ** 6,
                                     enable_cache=False)
-                    loop.executor.next = T.ActionProtein(z, "p", 0.5)
-                    loop.assessor.next = T.ActionProtein(y, "p", 0.5)
+                    loop.executor.next = T.ActionProtein(TStr(z), "p", 0.5)
+                    loop.assessor.next = T.ActionProtein(TStr(y), "p", 0.5)
                     loop._apply_gate_logic = (lambda zo, yo, pr, s=s, b=b, loop=loop:
                                               L.LoopResult(success=s, action="PROBE", blocked=b, gate_logic=loop.gate_logic))
                     with contextlib.redirect_stdout(io.StringIO()):
@@ -184,9 +199,9 @@ def render(ok, rows, tokens_ok, lits, shape_ok, rc, why="") -> str:
     L.append("/-- every attached token carried sha256(prompt)[:16] of the probed prompt and the assessor's name -/")
     L.append(f"def tokensWellFormed : Bool := {_b(tokens_ok)}")
     L.append("")
-    L.append("/-- the string literals `action_type` is compared against anywhere in the class -/")
+    L.append("/-- the strings a verdict was compared against while the real code ran (tracer strings) -/")
     L.append("def literals : List String := [" + ", ".join(_s(x) for x in lits) + "]")
-    L.append("/-- `action_type` is used in no other way than such comparisons -/")
+    L.append("/-- a verdict was used in no other way than such comparisons (and formatting) -/")
     L.append(f"def shapeOk : Bool := {_b(shape_ok)}")
     L.append("")
     L.append("/-- `run`: (result.success, result.blocked, executor verdict, assessor verdict) ↦ what the breaker records -/")
@@ -203,14 +218,16 @@ def extract():
     try:
         from operon_ai.topology import loops as L
         from operon_ai.core import types as T
-        src = (REPO / "operon_ai" / "topology" / "loops.py").read_text()
         saved_dt = L.datetime
+        TStr.lits, TStr.other = set(), set()
         rows, tokens_ok = gate_rows(L, T)
-        lits, shape_ok = literal_check(src)
         rc = run_classification(L, T)
+        traced_runs(L, T)
+        lits, shape_ok = sorted(TStr.lits), not TStr.other
         L.datetime = saved_dt
         text = render(True, rows, tokens_ok, lits, shape_ok, rc)
-        note = f"{len(rows)} gate rows, {len(rc)} run-classification rows, literals {lits}"
+        note = (f"{len(rows)} gate rows, {len(rc)} run-classification rows, literals {lits}"
+                + (f", OTHER USES of action_type: {sorted(TStr.other)}" if TStr.other else ""))
     except Exception as e:  # fail closed
         why = f"{type(e).__name__}: {e}".replace("\n", " ")[:200].replace("-/", "- /")
         text = render(False, [], False, [], False, [], why)
